@@ -519,7 +519,48 @@ def r14(ctx):
         raise AnalysisBroken('C09.R14: only %d element stores in counting loops found' % n)
 
 
+def r15(ctx):
+    ctx.rule('C09.R15', 'the parts of a chain are joined only when every part has arrived in this round: '
+             'ChainedMessage::combineLastParts reads the master and the slave arrival time of every part 0..n-1 before it '
+             'joins (a loop from 0, or a loop from 1 plus an explicit read of element 0, for each of the two time vectors); a '
+             'part whose time is not looked at joins with the stale data of the previous round', minimum=2)
+    fb = ctx.fb
+    fn = fb.fn('ebusd::ChainedMessage::combineLastParts')
+    ctx.touch(fn)
+    for vec in ('this.m_lastMasterUpdateTimes', 'this.m_lastSlaveUpdateTimes'):
+        const0 = False
+        loop_from = None
+        for x, v in sorted(fn.nodes.items()):
+            if v['k'] == 'CXXOperatorCallExpr' and v.get('op') == '[]' and v.get('args') and fn.key(v['args'][0]) == vec:
+                idx = v['args'][1]
+            elif v['k'] == 'ArraySubscriptExpr' and fn.key(v['base']) == vec:
+                idx = v['idx']
+            else:
+                continue
+            par = fn.nodes.get(fn.parent(x), {})
+            if par.get('k') in ('BinaryOperator', 'CompoundAssignOperator') and par.get('lhs') == x and par.get('op') == '=':
+                continue    # a store, not a read
+            if fn.val(idx) == 0:
+                const0 = True
+                continue
+            d = fn.ref_decl(fn.strip(idx, casts=True))
+            for f in fn.all('ForStmt'):
+                fv = fn.nodes[f]
+                if fv.get('init') is None or x not in set(fn.walk(f)):
+                    continue
+                for y in fn.walk(fv['init']):
+                    if fn.nodes[y]['k'] == 'DeclStmt':
+                        for dd in fn.nodes[y].get('decls', []):
+                            if dd.get('decl') == d and 'init' in dd and fn.val(dd['init']) is not None:
+                                s0 = fn.val(dd['init'])
+                                loop_from = s0 if loop_from is None else min(loop_from, s0)
+        ok = loop_from == 0 or (loop_from == 1 and const0)
+        ctx.ob('C09.R15', fn, fn.body, ok, 'arrival times %s' % vec.replace('this.', ''),
+               'read for the parts from %s on%s' % (loop_from, ' and for part 0' if const0 else ''))
+
+
 def run(ctx):
+    r15(ctx)
     r14(ctx)
     file_state_rule(ctx, 'C09.R13')
     r11(ctx)
